@@ -8,12 +8,13 @@ TInit == AbsInit /\ l = 1
 TNext == /\ l <= Len(Trace)
          /\ l' = l + 1
          /\ CASE Ev.e = "init"      -> Reset(Ev.n, Ev.ordered, Ev.mdMs)
-              [] Ev.e = "sub"       -> Sub(Ev.task, Ev.kind, Ev.at, Ev.t)
+              [] Ev.e = "sub"       -> Sub(Ev.task, Ev.kind, Ev.at, Ev.t, IF "iv" \in DOMAIN Ev THEN Ev.iv ELSE 0)
+              [] Ev.e = "repoff"    -> RepOff(Ev.task)
               [] Ev.e = "cancelret" -> CancelRet(Ev.task)
               [] Ev.e = "unsched"   -> Unsched(Ev.task)
               [] Ev.e = "checked"   -> Checked(Ev.task, Ev.t, Ev.by)
               [] Ev.e = "begin"     -> Begin(Ev.task, Ev.t)
-              [] Ev.e = "end"       -> End(Ev.task)
+              [] Ev.e = "end"       -> End(Ev.task, Ev.t)
               [] Ev.e = "final"     -> Final(Ev.t)
               [] Ev.e = "note"      -> UNCHANGED avars
               [] OTHER              -> FALSE
